@@ -42,8 +42,12 @@ IsOp(o)      == ev.k = "Op" /\ st.last.op = o /\ st.last.res # "skip"
 Known(s, j)  == j \in JobIds(s)
 
 Run(j, t) == st.runs[j][t]
-OkFor(j, d) == Run(j, d).outcome = "ok" \/ (Run(j, d).outcome = "fail" /\ V(j).tasks[d].allow)
-FailedHard(j, t) == Run(j, t).outcome = "fail" /\ ~V(j).tasks[t].allow
+\* outcomes of a Run: "ok"; "fail" (non-zero exit status); "err" (another error: the task is reported errored even if it is
+\* allow_failure, but an allow_failure task never blocks its dependents); "canceled"; "lost" (process died in a restart)
+OkFor(j, d) == Run(j, d).outcome = "ok" \/ (Run(j, d).outcome \in {"fail", "err"} /\ V(j).tasks[d].allow)
+FailedHard(j, t) == Run(j, t).outcome \in {"fail", "err"} /\ ~V(j).tasks[t].allow
+\* the task is reported errored (which triggers fail-fast)
+Errored(j, t) == FailedHard(j, t) \/ Run(j, t).outcome = "err"
 UserCause(j) == st.ack[j].n > 0 \/ st.ack[j].req > 0 \/ st.shut # "no" \/ st.stop[j].byShutdown
 
 BecameStarted(j) == Quiet /\ st.jobs[j].started /\ ~(Known(pre, j) /\ pre.jobs[j].started)
@@ -236,13 +240,13 @@ C08_NoRunAfterFailedDep == [][C08_NoRunAfterFailedDepAct]_pvars
 FlagStable(j) == Defined(st.jobs[j].p) /\ Cur(st.jobs[j].p).cont = V(j).cont /\ SameEpoch(j)
 
 C08_FailFast ==
-  Quiet => \A j \in J : (FlagStable(j) /\ ~V(j).cont /\ st.jobs[j].listed /\ ~st.jobs[j].rst /\ \E t \in TaskIds(j) : FailedHard(j, t)) =>
+  Quiet => \A j \in J : (FlagStable(j) /\ ~V(j).cont /\ st.jobs[j].listed /\ ~st.jobs[j].rst /\ \E t \in TaskIds(j) : Errored(j, t)) =>
      /\ \A t \in TaskIds(j) : ~Run(j, t).open
      /\ (st.jobs[j].completed \/ st.phase = "drained") => (st.jobs[j].errored \/ st.jobs[j].lastErr # "")
      /\ ~Plain(st, j)
 
 C08_FailFastNoNewTask ==
-  \A j \in J : (FlagStable(j) /\ ~V(j).cont) => \A t \in TaskIds(j) : FailedHard(j, t) =>
+  \A j \in J : (FlagStable(j) /\ ~V(j).cont) => \A t \in TaskIds(j) : Errored(j, t) =>
      \A u \in TaskIds(j) : (Run(j, u).begun > 0 /\ u # t) => Run(j, u).begunAt <= Run(j, t).endedAt
 
 C08_Continue ==
@@ -308,7 +312,7 @@ C11_RejectAfter ==
 C11_GracefulRunsOut ==
   (ShutRet /\ ~st.forced) => \A j \in J : st.jobs[j].listed =>
      /\ (st.jobs[j].started /\ NoTrouble(j)) => (Plain(st, j) /\ \A t \in TaskIds(j) : Run(j, t).begun = 1)
-     /\ (st.stop[j].n >= 1 /\ st.stop[j].duringShut) => (st.ack[j].n > 0 \/ \E t \in TaskIds(j) : FailedHard(j, t))
+     /\ (st.stop[j].n >= 1 /\ st.stop[j].duringShut) => (st.ack[j].n > 0 \/ \E t \in TaskIds(j) : Errored(j, t))
      /\ ~st.jobs[j].started => st.jobs[j].canceled
 
 \* after the deadline every job that is still executing has been told to stop (at the latest by the next quiescent moment)
